@@ -50,7 +50,7 @@ def correspond_with(ctx, exe, ops, impl, label="", model=True):
         if v != "ok":
             f = {"op": op, "impl": a[:2000], "model": b[:2000], "clause": v}
             k = vlib.match_known(ctx.prop, f, known)
-            if k is not None and a == b and model:
+            if k is not None and a == b and (model or k.get("judged_only")):
                 if k["id"] not in [x["id"] for x in ctx.known_hits]:
                     ctx.known_hits.append({"id": k["id"], "what": k.get("what", ""), "example": f})
                 ctx.cov.setdefault("known_finding_inputs", {}); ctx.cov["known_finding_inputs"][k["id"]] = ctx.cov["known_finding_inputs"].get(k["id"], 0) + 1
